@@ -17,10 +17,26 @@ SMALL_TREES = {
 }
 GENERIC = [f"{op}:{cls}" for cls in ("Leaf", "Names", "Solo", "Words") for op in ("parse", "from_dict", "bytes", "to_dict")
            if not (cls == "Words" and op == "from_dict")]
-SCENARIOS = GENERIC + ["parse_small", "from_dict_names", "from_json_names", "bytes_small", "to_dict_small", "oneof_history", "varints_small",
+SCENARIOS = GENERIC + ["tiny_oneof", "tiny_from_dict", "tiny_parse", "parse_small", "from_dict_names", "from_json_names", "bytes_small", "to_dict_small", "oneof_history", "varints_small",
              "parse_vs_from_dict", "maps_parse", "enum_lookups", "pickle_copy", "parse_wide", "words_parse"]
 
 _C = {}
+
+
+def _tiny_classes():
+    """Hand-written classes small enough for every preemption point to be swept in the quick tier (defined, never used,
+    in the zygote)."""
+    import dataclasses
+    from typing import Dict, List
+
+    import betterproto
+
+    if "Tiny" not in _C:
+        _C["Tiny"] = dataclasses.make_dataclass("Tiny", [("a", int, betterproto.int32_field(1, group="g")), ("b", str, betterproto.string_field(2, group="g")),
+                                                         ("line_1", int, betterproto.int32_field(3)), ("tags", List[str], betterproto.string_field(4)),
+                                                         ("m", Dict[str, int], betterproto.map_field(5, "string", "sint32"))],
+                                                bases=(betterproto.Message,), eq=False, repr=False)
+    return _C["Tiny"]
 
 
 def fresh_prepare():
@@ -30,6 +46,7 @@ def fresh_prepare():
     from ._corpus import corpus
 
     _C["c"] = corpus()
+    _tiny_classes()
     for m in ("betterproto.casing", "betterproto.enum", "betterproto.utils", "betterproto.lib.google.protobuf", "dateutil.parser"):
         try:
             importlib.import_module(m)
@@ -174,6 +191,27 @@ def _scenario(name):
             return None
 
         return [hist(("a_int32", 5), ("a_string", "x")), hist(("a_bool", True), ("a_int32", 0))], judge
+    if name in ("tiny_oneof", "tiny_from_dict", "tiny_parse"):
+        Tiny = _tiny_classes()
+        if name == "tiny_oneof":
+            def hist(first, second):
+                def run():
+                    m = Tiny()
+                    setattr(m, first[0], first[1])
+                    setattr(m, second[0], second[1])
+                    return (betterproto.which_one_of(m, "g"), bytes(m), m.to_dict())
+
+                return run
+
+            return [hist(("a", 5), ("b", "x")), hist(("b", "y"), ("a", 0))], \
+                lambda r: None if r in ((("b", "x"), b"\x12\x01x", {"b": "x"}), (("a", 0), b"\x08\x00", {"a": 0})) else f"got {r!r}"
+        if name == "tiny_from_dict":
+            d = {"a": 1, "line1": 7, "tags": ["t"], "m": {"k": -3}}
+            f = lambda: Tiny().from_dict(d)  # noqa: E731
+            return [f, f], lambda m: None if (m.a, m.line_1, m.tags, m.m, bytes(m)) == (1, 7, ["t"], {"k": -3}, b"\x08\x01\x18\x07\x22\x01t\x2a\x05\x0a\x01k\x10\x05") else f"got {m!r} {bytes(m).hex()}"
+        data = b"\x12\x01x\x18\x07\x22\x01t\x2a\x05\x0a\x01k\x10\x05"
+        f = lambda: Tiny().parse(data)  # noqa: E731
+        return [f, f], lambda m: None if (betterproto.which_one_of(m, "g"), m.line_1, m.tags, m.m) == (("b", "x"), 7, ["t"], {"k": -3}) else f"got {m!r}"
     if name == "varints_small":
         vals = [0, 1, 127, 128, 300, 16383, 16384, -1, 2**63]
         op = lambda: ([betterproto.encode_varint(v) for v in vals], [betterproto.size_varint(v) for v in vals], [betterproto.decode_varint(wire.enc_varint(v), 0) for v in vals])  # noqa: E731
@@ -243,7 +281,7 @@ def target(ctx, scenarios, quick_points=40):
             n0 = max(1, total // 2)  # (both threads run the same kind of work: the first one's share)
             # thorough: every line of small scenarios, 1500 points of big ones; quick: `quick_points` per scenario, the
             # offset of the comb moves with VERIF_SEED
-            points = (n0 if n0 <= 3000 else 1500) if ctx.thorough else quick_points
+            points = (n0 if n0 <= 3000 else 1500) if ctx.thorough else (min(n0, 300) if s.startswith("tiny_") else quick_points)
             stride = max(1, n0 // points)
             for k in range(1 + (ctx.seed % stride), n0 + 1, stride):
                 yield {"scenario": s, "preempt": [k]}
